@@ -35,6 +35,7 @@ func runC17(c *Ctx) {
 	c17R8(c)
 	c17R9(c)
 	c17R10(c)
+	c17R11(c)
 	livePersisted(c, c.R.Rule("R7", "K8 what is persisted is the live instance: a pipeline/connector/processor service method that fetched an instance hands that very instance to store.Set, or a copy that sets every exported field", 10))
 }
 
@@ -703,4 +704,42 @@ func c17R10(c *Ctx) {
 	}
 	c.R.Check(!inLoop, r, "provisioning.Init: duplicate entries are removed in one go", pos, "outside the loop", "Init removes the duplicated config entries inside the loop over the duplicated ids: the indexes findDuplicateIDs computed refer to the list before any removal, so with two different duplicated ids the second removal uses stale indexes — a slice-bounds panic on the start-up path or, depending on map order, the valid pipeline dropped and a stored copy of it deleted with its positions", true)
 	c.R.Check(len(kit.CallsTo(fn, Set(delIdx))) >= 1, r, "provisioning.Init: deleteIndexes call", c.Pos(fn.Pos()), "found", "no deleteIndexes call in Init", true)
+}
+
+// c17R11: F75 (known finding). The sqlite driver's GetKeys returns group_concat(key) and splits on commas. Pipeline and
+// connector ids are restricted to [A-Za-z0-9-_:.], processor ids are not validated at all: a processor id containing a
+// comma (`mask,upper`, accepted from a config file) is stored fine and comes back as two keys that do not exist —
+// processor.Service.Init fails and the server does not start.
+func c17R11(c *Ctx) {
+	r := c.R.Rule("R11", "K3 every stored key can be listed again: processor.Service.Create validates the processor id (the character set pipeline and connector ids are restricted to) before it persists", 1)
+	fn := c.SSA(r, pProc, "(*Service).Create")
+	set := c.Fn(r, pProc, "(*Store).Set")
+	if fn == nil || set == nil {
+		return
+	}
+	var idParam ssa.Value
+	for _, prm := range fn.Params {
+		if prm.Name() == "id" {
+			idParam = prm
+		}
+	}
+	validated := false
+	for _, b := range fn.Blocks {
+		for _, in := range b.Instrs {
+			ci, ok := in.(ssa.CallInstruction)
+			if !ok {
+				continue
+			}
+			h := ci.Common().StaticCallee()
+			if h == nil || kit.ErrIndexOfCall(ci) < 0 && !strings.Contains(strings.ToLower(h.Name()), "valid") {
+				continue
+			}
+			for _, a := range ci.Common().Args {
+				if idParam != nil && (a == idParam || kit.IsVar(a, idParam)) && strings.Contains(strings.ToLower(h.Name()), "valid") {
+					validated = true
+				}
+			}
+		}
+	}
+	c.R.Check(validated, r, "processor.Service.Create: the processor id is validated", c.Pos(fn.Pos()), "validated", "processor.Service.Create accepts any id (pipeline and connector ids are restricted to [A-Za-z0-9-_:.]): an id with a comma, e.g. `mask,upper` from a config file, is stored as the key `processor:instance:pl:mask,upper`; the sqlite driver's GetKeys (group_concat, split on commas) returns it as two keys that do not exist, processor.Service.Init fails and the server cannot start any more", true)
 }
